@@ -81,6 +81,8 @@ type Contract struct {
 	CallInvariants map[string][]*Clause
 	callSeen    map[string]bool
 	Props      map[string]bool // property ids mentioned by labels
+	// StrongProps: property ids mentioned by labels of clauses OTHER than `deterministic` (functional clauses)
+	StrongProps map[string]bool
 	Obj        *types.Func
 	recvExpr   ast.Expr
 	funcName   string
@@ -377,7 +379,7 @@ func (db *SpecDB) parseSpecFile(file string, pkgPath string) {
 			db.Axioms = append(db.Axioms, &Axiom{strings.TrimSpace(rest[:i]), e, rest[i+1:], pkgPath, copyMap(imports), axProps})
 			cur, curLoop = nil, nil
 		case "func", "functype":
-			c := &Contract{File: file, Line: en.ln, PkgPath: pkgPath, Imports: copyMap(imports), SigSrc: body, Loops: map[int]*LoopSpec{}, Props: map[string]bool{}, CallAsserts: map[string][]*Clause{}, CallInvariants: map[string][]*Clause{}}
+			c := &Contract{File: file, Line: en.ln, PkgPath: pkgPath, Imports: copyMap(imports), SigSrc: body, Loops: map[int]*LoopSpec{}, Props: map[string]bool{}, StrongProps: map[string]bool{}, CallAsserts: map[string][]*Clause{}, CallInvariants: map[string][]*Clause{}}
 			sigSrc := body
 			if w == "functype" {
 				// functype pkg.Name(params) results
@@ -446,6 +448,9 @@ func (db *SpecDB) parseSpecFile(file string, pkgPath string) {
 						id = l[:i]
 					}
 					cur.Props[id] = true
+					if w != "deterministic" {
+						cur.StrongProps[id] = true
+					}
 				}
 			}
 			trusted := false
